@@ -4,6 +4,7 @@ package main
 // mode; the gated mode replays schedules deterministically with the probes as yield points.
 
 import (
+	"encoding/json"
 	"fmt"
 	"math/rand"
 	"sync"
@@ -272,6 +273,16 @@ func concMain(mode string, a args) {
 		// deterministic interleavings of 2-3 parses of one shared, probed left-recursive grammar
 		p := gatedGrammar()
 		n := a.num("n", 40)
+		// interleavings generated by TLC from Concurrent.tla (one JSON array of process ids per line), replayed first
+		var tlcScheds [][]int
+		if sf := a.str("scheds", ""); sf != "" {
+			readLines(sf, func(line []byte) {
+				var sc []int
+				if json.Unmarshal(line, &sc) == nil && len(sc) > 0 {
+					tlcScheds = append(tlcScheds, sc)
+				}
+			})
+		}
 		pool := []string{"ab", "abb", "xac", "abcb", "b", "a", "xabc", ""}
 		for i := 0; i < n; i++ {
 			k := 2 + r.Intn(2)
@@ -286,6 +297,9 @@ func concMain(mode string, a args) {
 				if j > 0 && r.Intn(3) == 0 {
 					sched[j] = sched[j-1] // bursts
 				}
+			}
+			if i < len(tlcScheds) {
+				sched = tlcScheds[i] // process ids 1..N of the model; the harness takes them modulo the number of goroutines
 			}
 			conc := gatedRun(p, inputs, sched)
 			for g := 0; g < k; g++ {
